@@ -304,6 +304,24 @@ func (r *Rand) Mutate(b []byte) []byte {
 // Hostile draws an arbitrary byte string meant for decoders: valid,
 // dirty-valid, mutated, header-only variants, or uniform random.
 func (r *Rand) Hostile(seeds [][]byte, maxLen int) []byte {
+	if r.Chance(1, 25) {
+		// a valid message inside some other framing: RFC 4571 / ICE-TCP 16-bit length prefix, a 4-byte prefix, TURN
+		// ChannelData header, the message twice. As a whole none of these is a STUN message unless its own first 20
+		// bytes say so.
+		m := r.WireDirty(r.Spec(4, 24))
+		switch r.Intn(5) {
+		case 0:
+			return append([]byte{byte(len(m) >> 8), byte(len(m))}, m...)
+		case 1:
+			return append([]byte{0, 0, byte(len(m) >> 8), byte(len(m))}, m...)
+		case 2:
+			return append([]byte{0x40, 0x00, byte(len(m) >> 8), byte(len(m))}, m...)
+		case 3:
+			return append([]byte{byte(len(m) + 2>>8), byte(len(m) + 2)}, m...)
+		default:
+			return append(append([]byte(nil), m[:len(m)-1]...), m...)
+		}
+	}
 	switch r.Intn(10) {
 	case 0: // uniform random, any length
 		n := r.Intn(64)
